@@ -3,6 +3,8 @@
 # directory it is started in (meant for `vp run`: a snapshot of /verif; builds its own caches first).  Prints one line per check.
 A=${1:-2}; B=${2:-4}; TIER=${3:-quick}
 cd "$(dirname "$0")/.."
+# with `vp run --with-repo` the run reads its own snapshot of /repo (so that seeded changes tried in /repo meanwhile cannot show up here)
+if [ -n "$VP_RUN_REPO" ]; then export XV_REPO=$VP_RUN_REPO; sed -i "s#path = \"/repo/#path = \"$VP_RUN_REPO/#" harness/Cargo.toml; fi
 ./setup.sh > soak_setup.log 2>&1
 for s in $(seq $A $B); do
   for i in $(seq -w 1 20); do
